@@ -94,6 +94,9 @@ def gen_case(rng, tier, idx, shard, nshards):
     setup = []
     if ftype == "xy":
         fam = str(rng.choice(["poly1", "poly2", "trig", "exponential", "gausspeak", "logistic", "poly3"], p=[0.2, 0.2, 0.1, 0.2, 0.1, 0.1, 0.1]))
+        if gi % 16 in (3, 10) and len(Model(fam).pnames) < 3:
+            # the slot of the stratum "last-listed parameter fixed, the others free" needs >= 3 parameters: it always realises its stratum
+            fam = str(rng.choice(["poly2", "trig", "poly3", "logistic"]))
         npts = int(rng.integers(len(Model(fam).pnames) + 4, 13))
         spec = gen.gen_xy_spec(rng, family=fam, cost="chi2", n=npts, noise=0.04)
         ys = float(np.mean(np.abs(spec["y"])) + 0.3)
